@@ -1,9 +1,9 @@
-//! Open finding C02-fusion-onto-private-input (C02: a satisfying program must run).
+//! F9 (fixed by /repo 0ed2fc1; was the finding C02-fusion-onto-private-input): C02, a satisfying program must run.
 //! `x - a*b` with `x` a PRIVATE input and `a*b` used once: lowering emits Mul(a,b)->m and the backwards add Add(m, r, x)
 //! (r = x - m).  Private inputs have no defining op, so MulAddFusion does not see that the add's out slot is already given and
 //! fuses the pair into MulAdd(a, b, c = r, out = x): the fused op needs r, which nothing computes any more -> WitnessNotSet.
 //! The same program with x a public input runs (control).  Place in circuit/tests/ and run
-//! `cargo test -p p3-circuit --test C02_fusion_private_out_test`: the first test FAILS on the current tree.
+//! `cargo test -p p3-circuit --test C02_fusion_private_out_test`: the first test FAILS at ba1bfe9 and PASSES at 0ed2fc1.
 use p3_circuit::CircuitBuilder;
 use p3_test_utils::baby_bear_params::{BabyBear, PrimeCharacteristicRing};
 type F = BabyBear;
